@@ -2371,3 +2371,8 @@ silent("c19-rational-multiply-by-unit", ["C19"], RAT,
        "        numerator //= d_unit\n        denominator //= d_unit",
        "        numerator = numerator * d_unit\n"
        "        denominator = denominator * d_unit")
+
+fire("c01-legacy-hash-plain-store", ["C01"], PR,
+     "            object.__setattr__(self, \"_hash_value\", self.get_hash())\n",
+     "            self._hash_value = self.get_hash()\n",
+     "O/legacy/__hash__/cache-store-works-when-frozen")
